@@ -1,0 +1,41 @@
+//go:build verif
+
+package dig
+
+import (
+	"math/rand"
+	"time"
+
+	"go.uber.org/dig/internal/digclock"
+	"go.uber.org/dig/internal/graph"
+)
+
+// This file is compiled only with the "verif" build tag. It exposes
+// a few internals to external verification harnesses and changes
+// no behavior of the package.
+
+type verifGraph struct{ adj [][]int }
+
+func (g verifGraph) Order() int            { return len(g.adj) }
+func (g verifGraph) EdgesFrom(u int) []int { return g.adj[u] }
+
+// VerifIsAcyclic runs the internal cycle search on the digraph with n
+// nodes and the given adjacency lists (edges[u] lists the successors of u).
+func VerifIsAcyclic(n int, edges [][]int) (bool, []int) {
+	adj := make([][]int, n)
+	copy(adj, edges)
+	return graph.IsAcyclic(verifGraph{adj: adj})
+}
+
+// VerifMockClock returns an Option installing a mock clock and a function
+// advancing that clock.
+func VerifMockClock() (Option, func(time.Duration)) {
+	m := digclock.NewMock()
+	return setClock(m), m.Add
+}
+
+// VerifSeedRand returns an Option fixing the source of randomness used to
+// shuffle value groups.
+func VerifSeedRand(seed int64) Option {
+	return setRand(rand.New(rand.NewSource(seed)))
+}
